@@ -37,7 +37,7 @@ CHECKS = {
     },
     "C05": {
         "module": "Vanguard.Props.C05", "namespace": "Vanguard.C05", "streams": ["e2e"],
-        "partial": "request direction and response headers proved (application headers reach the backend / the client's head with the same values for every protocol pairing); protocol status keys never stay in application trailers; the relocation of trailers to the place the client's protocol defines, and error responses, are checked by correspondence and ground-truth oracle",
+        "partial": "request direction and response headers proved (application headers reach the backend / the client's head with the same values for every protocol pairing); protocol status keys never stay in application trailers; trailers are proved to reach a Connect-streaming client in its end-of-stream frame (always), a gRPC-Web client in its trailer frame and a gRPC client as HTTP trailers (once the head is out); trailers-only responses of gRPC/gRPC-Web clients, the Trailer- headers of a unary Connect client and error responses are checked by correspondence and ground-truth oracle",
         "assumptions": E2E_ASSUME,
     },
     "C03": {
